@@ -113,12 +113,27 @@ Definition entry_of (m : mdef) : string * aent :=
 Lemma forallb_app_l : forall A (f : A -> bool) a b, forallb f (a ++ b) = true -> forallb f a = true.
 Proof. intros A f a b H. rewrite forallb_app in H. now apply andb_true_iff in H as [H _]. Qed.
 
+Definition getter_ok' (m : mdef) : bool :=
+  match m_wrap m with
+  | WGetter (ARaise _) => false
+  | WGetter (AVal v) => simple_val v && match m_outer m with [] => true | _ => false end
+  | WClassMethod | WStaticMethod => match m_outer m with [] => true | _ => false end
+  | WPlain => true
+  end.
+
+Lemma getter_ok_eq : forall m, getter_ok m = getter_ok' m.
+Proof.
+  intro m. unfold getter_ok, getter_ok', getter_dom, raising_getter, no_outer.
+  destruct (m_wrap m) as [| | |[v|e]]; try reflexivity; destruct (m_outer m); cbn; try reflexivity;
+    try (now rewrite andb_true_r); try (now rewrite andb_false_r).
+Qed.
+
 Lemma build_attr_claimed : forall m, claimed_def m = true -> build_attr F m = Ok (entry_of m).
 Proof.
   intros m H. unfold claimed_def in H.
   apply andb_true_iff in H as [H _]. apply andb_true_iff in H as [H Hg]. apply andb_true_iff in H as [H _].
   apply andb_true_iff in H as [Hk _].
-  unfold build_attr, entry_of, obj_of, attrs_of, all_decos in *. unfold getter_ok in Hg.
+  rewrite getter_ok_eq in Hg. unfold build_attr, entry_of, obj_of, attrs_of, all_decos in *. unfold getter_ok' in Hg.
   destruct (m_wrap m) as [| | |a].
   - now rewrite (apply_decos_keep _ _ _ Hk).
   - destruct (m_outer m); [|discriminate]. rewrite app_nil_r in *. now rewrite (apply_decos_keep _ _ _ Hk).
@@ -556,7 +571,7 @@ Proof.
   { cbn [orb negb] in Hr. apply negb_true_iff in Hr. split; [reflexivity|]. split; [congruence|reflexivity]. }
   destruct (String.eqb (m_name m) "type_vars") eqn:E2.
   { cbn [orb negb] in Hr. apply negb_true_iff in Hr. split; [reflexivity|]. split; [congruence|reflexivity]. }
-  rewrite Hw, (assoc_entry _ _ Hn Hm). unfold entry_of, is_method, getter_ok in *. cbn [snd].
+  rewrite getter_ok_eq in Hg. rewrite Hw, (assoc_entry _ _ Hn Hm). unfold entry_of, is_method, getter_ok' in *. cbn [snd].
   destruct (m_wrap m) as [| | |a]; try (split; [reflexivity|split; [reflexivity|discriminate]]).
   destruct a as [v|]; [|discriminate Hg]. apply andb_true_iff in Hg as [Hs _].
   destruct (simple_inert _ Hs) as [Hi Ha]. split; [exact Hi|]. split; [discriminate|intros _; exact Ha].
@@ -648,7 +663,7 @@ Section Final.
     destruct (String.eqb (m_name m) "type_vars") eqn:E2.
     { apply String.eqb_eq in E2. rewrite E2. cbn [orb]. exact (tv_binding w k c oc [e] [VEnumCls ms] Hb). }
     cbn [orb]. destruct (claimed_parts _ Hc) as [Hn Hall]. destruct (Hall m Hm) as (_ & _ & _ & Hg & _).
-    rewrite Hw, (assoc_entry _ _ Hn Hm). unfold entry_of, getter_ok in *. cbn [snd].
+    rewrite getter_ok_eq in Hg. rewrite Hw, (assoc_entry _ _ Hn Hm). unfold entry_of, getter_ok' in *. cbn [snd].
     destruct (m_wrap m) as [| | |a]; try reflexivity. destruct a; [reflexivity|discriminate Hg].
   Qed.
 
@@ -763,4 +778,13 @@ Proof.
   replace (get_attr P w (call_n P w no_ext (S (S (S k)))) (VInst c None) "type_var")
     with (type_var_at w k c None) by reflexivity.
   now rewrite (tvar_unparam w k c ts H).
+Qed.
+
+(* claimed = the domain of the statement + no property that raises *)
+Lemma claimed_split : forall cd, in_domain cd = true -> no_raising_getter cd = true -> claimed cd = true.
+Proof.
+  unfold in_domain, no_raising_getter, claimed. intros cd H Hr. apply andb_true_iff in H as [H Hn].
+  rewrite Hn, andb_true_r. rewrite forallb_forall in *. intros m Hm. specialize (H m Hm). specialize (Hr m Hm).
+  unfold in_domain_def in H. unfold claimed_def, getter_ok.
+  apply andb_true_iff in H as [H H5]. apply andb_true_iff in H as [H H4]. rewrite H, H4, Hr, H5. reflexivity.
 Qed.
